@@ -131,6 +131,7 @@ func main() {
 	only := flag.String("only", "", "only this unit name")
 	onlyCfg := flag.String("cfg", "", "only this configuration")
 	par := flag.Int("par", 3, "children in parallel")
+	noKnown := flag.Bool("no-known", false, "ignore known_findings.jsonl (report everything as VIOLATION)")
 	flag.Usage = func() { fmt.Fprintln(os.Stderr, "usage: vcheck [flags] <ID>"); flag.PrintDefaults() }
 	// allow "vcheck C01 --tier quick" as well as flags first
 	args := os.Args[1:]
@@ -184,6 +185,7 @@ func main() {
 		flag.Usage()
 		os.Exit(2)
 	}
+	ignoreKnown = *noKnown
 	os.Exit(run(id, *tier, *seed, rp, *only, *onlyCfg, *par))
 }
 
@@ -766,8 +768,13 @@ func readJournal(path string) []inflight {
 	return out
 }
 
+var ignoreKnown bool
+
 func loadKnown() map[string]Known {
 	m := map[string]Known{}
+	if ignoreKnown {
+		return m
+	}
 	b, err := os.ReadFile(filepath.Join(verifRoot, "known_findings.jsonl"))
 	if err != nil {
 		return m
